@@ -44,7 +44,7 @@ fn c10_frustum(l: R, r: R, b: R, t: R, n: R, f: R) {
 
 // perspective = frustum of the symmetric window of half-height n tan(fovy/2), half-width aspect times that
 fn c10_perspective_is_frustum(fovy: R, aspect: R, n: R, f: R) {
-    vassume(fovy > R(0.0)); vassume(fovy < Rad::<R>::turn_div_2().0);
+    vassume(fovy > R(0.0)); vassume(fovy < R(std::f64::consts::PI));
     vassume(aspect > R(TINY)); vassume(n > R(0.0)); vassume(f > n + R(TINY));
     let pf = PerspectiveFov { fovy: Rad(fovy), aspect, near: n, far: f };
     let p = pf.to_perspective();
@@ -54,12 +54,12 @@ fn c10_perspective_is_frustum(fovy: R, aspect: R, n: R, f: R) {
     let m = perspective(Rad(fovy), aspect, n, f);
     vassert_eq("From<PerspectiveFov> = perspective()", Matrix4::from(pf), m);
     vassert_eq("perspective = frustum(to_perspective)", m, frustum(p.left, p.right, p.bottom, p.top, p.near, p.far));
-    vassert_eq("perspective(Deg) = perspective(Rad)", perspective(Deg(fovy * R(180.0) / Rad::<R>::turn_div_2().0), aspect, n, f).x.y, m.x.y);
+    vassert_eq("perspective(Deg) = perspective(Rad)", perspective(Deg(fovy * R(180.0) / R(std::f64::consts::PI)), aspect, n, f).x.y, m.x.y);
     vcover("end");
 }
 // perspective on its whole valid domain (near > far and negative aspect included): entries from the definition
 fn c10_perspective_entries(fovy: R, aspect: R, n: R, f: R) {
-    vassume(fovy > R(0.0)); vassume(fovy < Rad::<R>::turn_div_2().0);
+    vassume(fovy > R(0.0)); vassume(fovy < R(std::f64::consts::PI));
     far_from_zero(aspect); vassume(n > R(0.0)); vassume(f > R(0.0)); far_from_zero(f - n);
     let tn = Angle::tan(Rad(fovy / R(2.0)));
     vlemma("tan(fovy/2) > 0", tn > R(0.0));
@@ -73,7 +73,7 @@ fn c10_perspective_entries(fovy: R, aspect: R, n: R, f: R) {
 }
 // planar: window of height h and width aspect*h at z = 0 -> [-1,1]^2; z=-n -> -1, z=-f -> +1; focal point at (h/2)cot(fovy/2) behind the origin
 fn c10_planar(fovy: R, aspect: R, h: R, n: R, f: R) {
-    vassume(fovy > R(0.0)); vassume(fovy < Rad::<R>::turn_div_2().0);
+    vassume(fovy > R(0.0)); vassume(fovy < R(std::f64::consts::PI));
     far_from_zero(aspect); vassume(h > R(0.0)); far_from_zero(f - n);
     let tn = Angle::tan(Rad(fovy / R(2.0)));
     vlemma("tan(fovy/2) > 0", tn > R(0.0));
@@ -95,7 +95,8 @@ fn c10_planar(fovy: R, aspect: R, h: R, n: R, f: R) {
 }
 // ---- rejection: each documented precondition violated => no path returns
 fn c10_reject_persp_fovy_low(fovy: R, aspect: R, n: R, f: R) { vmay_panic(); vassume(fovy <= R(0.0)); let _m = perspective(Rad(fovy), aspect, n, f); vmust_not_reach("fovy <= 0 accepted"); }
-fn c10_reject_persp_fovy_high(fovy: R, aspect: R, n: R, f: R) { vmay_panic(); vassume(fovy >= Rad::<R>::turn_div_2().0); let _m = perspective(Rad(fovy), aspect, n, f); vmust_not_reach("fovy >= pi accepted"); }
+// (bounds are stated with pi itself, not with cgmath's half-turn constant: a wrong constant must not move the oracle)
+fn c10_reject_persp_fovy_high(fovy: R, aspect: R, n: R, f: R) { vmay_panic(); vassume(fovy >= R(std::f64::consts::PI)); let _m = perspective(Rad(fovy), aspect, n, f); vmust_not_reach("fovy >= pi accepted"); }
 fn c10_reject_persp_aspect(fovy: R, n: R, f: R) { vmay_panic(); let _m = perspective(Rad(fovy), R(0.0), n, f); vmust_not_reach("zero aspect accepted"); }
 fn c10_reject_persp_near(fovy: R, aspect: R, n: R, f: R) { vmay_panic(); vassume(n <= R(0.0)); let _m = perspective(Rad(fovy), aspect, n, f); vmust_not_reach("near <= 0 accepted"); }
 fn c10_reject_persp_far(fovy: R, aspect: R, n: R, f: R) { vmay_panic(); vassume(f <= R(0.0)); let _m = perspective(Rad(fovy), aspect, n, f); vmust_not_reach("far <= 0 accepted"); }
@@ -103,14 +104,14 @@ fn c10_reject_persp_near_eq_far(fovy: R, aspect: R, n: R) { vmay_panic(); let _m
 fn c10_reject_frustum_lr(l: R, r: R, b: R, t: R, n: R, f: R) { vmay_panic(); vassume(l > r); let _m = frustum(l, r, b, t, n, f); vmust_not_reach("left > right accepted"); }
 fn c10_reject_frustum_bt(l: R, r: R, b: R, t: R, n: R, f: R) { vmay_panic(); vassume(b > t); let _m = frustum(l, r, b, t, n, f); vmust_not_reach("bottom > top accepted"); }
 fn c10_reject_frustum_nf(l: R, r: R, b: R, t: R, n: R, f: R) { vmay_panic(); vassume(n > f); let _m = frustum(l, r, b, t, n, f); vmust_not_reach("near > far accepted"); }
-fn c10_reject_planar_fovy_high(fovy: R, aspect: R, h: R, n: R, f: R) { vmay_panic(); vassume(fovy >= Rad::<R>::turn_div_2().0); let _m = planar(Rad(fovy), aspect, h, n, f); vmust_not_reach("fovy >= pi accepted"); }
-fn c10_reject_planar_fovy_low(fovy: R, aspect: R, h: R, n: R, f: R) { vmay_panic(); vassume(fovy <= -Rad::<R>::turn_div_2().0); let _m = planar(Rad(fovy), aspect, h, n, f); vmust_not_reach("fovy <= -pi accepted"); }
+fn c10_reject_planar_fovy_high(fovy: R, aspect: R, h: R, n: R, f: R) { vmay_panic(); vassume(fovy >= R(std::f64::consts::PI)); let _m = planar(Rad(fovy), aspect, h, n, f); vmust_not_reach("fovy >= pi accepted"); }
+fn c10_reject_planar_fovy_low(fovy: R, aspect: R, h: R, n: R, f: R) { vmay_panic(); vassume(fovy <= -R(std::f64::consts::PI)); let _m = planar(Rad(fovy), aspect, h, n, f); vmust_not_reach("fovy <= -pi accepted"); }
 fn c10_reject_planar_height(fovy: R, aspect: R, h: R, n: R, f: R) { vmay_panic(); vassume(h < R(0.0)); let _m = planar(Rad(fovy), aspect, h, n, f); vmust_not_reach("negative height accepted"); }
 fn c10_reject_planar_aspect(fovy: R, h: R, n: R, f: R) { vmay_panic(); let _m = planar(Rad(fovy), R(0.0), h, n, f); vmust_not_reach("zero aspect accepted"); }
 fn c10_reject_planar_near_eq_far(fovy: R, aspect: R, h: R, n: R) { vmay_panic(); let _m = planar(Rad(fovy), aspect, h, n, n); vmust_not_reach("near = far accepted"); }
 fn c10_reject_planar_focal(fovy: R, aspect: R, h: R, n: R, f: R) {
     vmay_panic();
-    vassume(fovy > R(0.0)); vassume(fovy < Rad::<R>::turn_div_2().0); vassume(h > R(0.0));
+    vassume(fovy > R(0.0)); vassume(fovy < R(std::f64::consts::PI)); vassume(h > R(0.0));
     let tn = Angle::tan(Rad(fovy / R(2.0)));
     vlemma("tan(fovy/2) > 0", tn > R(0.0));
     let focal = -(h / (R(2.0) * tn));
@@ -120,7 +121,7 @@ fn c10_reject_planar_focal(fovy: R, aspect: R, h: R, n: R, f: R) {
 }
 // ---- and valid parameters are accepted (the returning path exists and no panic path is feasible)
 fn c10_accept_perspective(fovy: R, aspect: R, n: R, f: R) {
-    vassume(fovy > R(0.0)); vassume(fovy < Rad::<R>::turn_div_2().0);
+    vassume(fovy > R(0.0)); vassume(fovy < R(std::f64::consts::PI));
     far_from_zero(aspect); vassume(n > R(0.0)); vassume(f > R(0.0)); far_from_zero(f - n);
     let _m = perspective(Rad(fovy), aspect, n, f);
     vcover("returned");
